@@ -237,6 +237,12 @@ class Block:
         return
                 
     def __validate(self, who: str):
+        # Generated trials are reported per factor name, so names must be unique.
+        design_names = set()
+        for f in self.design:
+            if f.name in design_names:
+                raise RuntimeError(f"{who}: multiple factors have the same name: {f.name}")
+            design_names.add(f.name)
         for cr in self.crossings:
             names = set()
             for f in cr:
